@@ -25,21 +25,23 @@ from streamflow.core.config import BindingConfig
 from streamflow.core.data import DataType
 from streamflow.core.deployment import DeploymentConfig, Target
 from streamflow.core.exception import FailureHandlingException, WorkflowExecutionException
-from streamflow.core.utils import get_job_tag, get_tag
+from streamflow.core.utils import get_entity_ids, get_job_tag, get_tag
 from streamflow.core.workflow import Command, CommandOutput, Job, Status, Token, Workflow
 from streamflow.data.remotepath import StreamFlowPath
 from streamflow.deployment.utils import get_path_processor
 from streamflow.workflow.step import (
+    ConditionalStep,
     DefaultCommandOutputProcessor,
     DeployStep,
     ExecuteStep,
     GatherStep,
     InputInjectorStep,
+    LoopOutputStep,
     ScatterStep,
     ScheduleStep,
     TransferStep,
 )
-from streamflow.workflow.token import FileToken, JobToken, ListToken, TerminationToken
+from streamflow.workflow.token import FileToken, IterationTerminationToken, JobToken, ListToken, TerminationToken
 from streamflow.workflow.utils import get_job_token
 
 PHASES = ("schedule", "transfer", "execute")
@@ -251,6 +253,8 @@ class ROutputProcessor(DefaultCommandOutputProcessor):
     async def process(self, job, command_output, connector=None, recoverable=False):
         context = self.workflow.context
         value = (await command_output).value
+        if isinstance(value, int):
+            return Token(tag=get_tag(job.inputs.values()), value=value, recoverable=recoverable)
         if isinstance(value, list):
             return ListToken(tag=get_tag(job.inputs.values()),
                              value=[await _file_token(context, job, v, recoverable) for v in value])
@@ -260,6 +264,8 @@ class ROutputProcessor(DefaultCommandOutputProcessor):
 class RInputInjectorStep(InputInjectorStep):
     async def process_input(self, job: Job, token_value: Any) -> Token:
         context = self.workflow.context
+        if not isinstance(token_value, (str, list)):        # loop counters and limits
+            return Token(tag=get_tag(job.inputs.values()), value=token_value, recoverable=True)
         if isinstance(token_value, list):
             return ListToken(tag=get_tag(job.inputs.values()),
                              value=[await _file_token(context, job, v, True) for v in token_value])
@@ -281,6 +287,15 @@ def _flat(v):
     if isinstance(v, Token):
         return _flat(v.value)
     return [v]
+
+
+def _paths(t):
+    """Paths of the files a token carries (nothing for primitives)."""
+    if isinstance(t, FileToken):
+        return [t.value]
+    if isinstance(t, ListToken):
+        return [p for x in t.value for p in _paths(x)]
+    return []
 
 
 class RCommand(Command):
@@ -307,15 +322,18 @@ class RCommand(Command):
             try:
                 name = self.step.name.strip("/")
                 os.makedirs(job.output_directory, exist_ok=True)
-                ins = {key: t.value for key, t in sorted(job.inputs.items())}
-                paths = {key: _flat(v) for key, v in ins.items()}
+                ins = {key: t.value for key, t in sorted(job.inputs.items()) if _paths(t) or self.out_type != "inc"}
+                paths = {key: _paths(t) for key, t in sorted(job.inputs.items()) if _paths(t)}
+                ins = {key: v for key, v in ins.items() if key in paths}
                 for ps in paths.values():
                     for p in ps:
                         if not os.path.exists(p):
                             raise WorkflowExecutionException("Job %s input does not exist: File %s" % (job.name, p))
                 is_list = any(isinstance(v, list) for v in ins.values())
                 tag = get_job_tag(job.name)
-                if is_list and self.out_type != "file":
+                if self.out_type == "inc":
+                    value = int(next(t.value for k2, t in job.inputs.items() if k2 == "counter")) + 1
+                elif is_list and self.out_type != "file":
                     # element-wise over the (single) list input
                     (key, ps), = [(k2, v) for k2, v in paths.items() if isinstance(ins[k2], list)] or [(None, [])]
                     res = []
@@ -397,6 +415,14 @@ class RTransferStep(TransferStep):
                                                      dst_locations=dst_locations, dst_path=dst_path, writable=True)
         except WorkflowExecutionException as err:
             raise WorkflowExecutionException("Job %s failed transfer: %s" % (job.name, err))
+        if src.deployment != dst_connector.deployment_name:
+            # a copy towards another deployment is a REPLICA of the same data: what DataManager.transfer_data(writable=False)
+            # registers for every real (non symlink) remote copy; only local connectors exist offline (read-only local copies
+            # are symlinks), so the relation is registered here
+            for dl in context.data_manager.get_data_locations(path=dst_path, deployment=dst_connector.deployment_name,
+                                                              data_type=DataType.PRIMARY):
+                if dl.path == dst_path:
+                    context.data_manager.register_relation(src, dl)
         return dst_path
 
     async def _tr(self, job, token):
@@ -437,6 +463,165 @@ class RTransferStep(TransferStep):
 # --------------------------------------------------------------------------------------------------
 # shapes -> real workflows
 # --------------------------------------------------------------------------------------------------
+
+class RLoopConditionalStep(ConditionalStep):
+    """Loop condition `counter < limit` (the engine-level loop wiring of tests/test_recovery.py::test_loop)."""
+
+    def __init__(self, name, workflow):
+        super().__init__(name, workflow)
+        self.skip_ports = {}
+
+    async def _eval(self, inputs):
+        return inputs["counter"].value < inputs["limit"].value
+
+    async def _on_true(self, inputs):
+        for port_name, port in self.get_output_ports().items():
+            port.put(await self._persist_token(token=inputs[port_name].update(inputs[port_name].value), port=port,
+                                               input_token_ids=get_entity_ids(inputs.values())))
+
+    async def _on_false(self, inputs):
+        for port in self.get_skip_ports().values():
+            port.put(IterationTerminationToken(tag=get_tag(inputs.values())))
+
+    async def _save_additional_params(self, database):
+        return (await super()._save_additional_params(database)) | {
+            "skip_ports": {k: p.persistent_id for k, p in self.get_skip_ports().items()}}
+
+    @classmethod
+    async def _load(cls, row, loading_context):
+        step = cls(name=row["name"], workflow=await loading_context.load_workflow(row["workflow"]))
+        for k, pid in row["params"]["skip_ports"].items():
+            step.add_skip_port(k, await loading_context.load_port(pid))
+        return step
+
+    def add_skip_port(self, name, port):
+        if port.name not in self.workflow.ports:
+            self.workflow.ports[port.name] = port
+        self.skip_ports[name] = port.name
+
+    def get_skip_ports(self):
+        return {k: self.workflow.ports[v] for k, v in self.skip_ports.items()}
+
+
+class RLoopOutputLastStep(LoopOutputStep):
+    async def _process_output(self, tag):
+        return sorted(self.token_map.get(tag, [Token(value=None)]), key=lambda t: int(t.tag.split(".")[-1]))[-1].retag(tag=tag)
+
+
+def loop(n_iter, pre=1):
+    """pre-stage(s) -> loop of n_iter iterations (body copies the loop-carried file, inc increments the counter)"""
+    return {"name": "loop%d%s" % (n_iter, "p" * pre), "kind": "loop", "iters": n_iter, "pre": pre, "inputs": {"IN": 0}, "out": "loop", "nodes": []}
+
+
+async def build_loop(context, shape, root, deployments=("vol",)):
+    from streamflow.cwl.transformer import ForwardTransformer
+    from streamflow.workflow.combinator import LoopCombinator, LoopTerminationCombinator
+    from streamflow.workflow.step import CombinatorStep, LoopCombinatorStep
+    wf = Workflow(context=context, name="recov-%s" % shape["name"], config={})
+    b = Built()
+    b.workflow, b.exec_steps, b.out_ports, b.shape = wf, {}, {}, shape
+    deploy = {}
+    for d, sub in [(deployments[0], "volatile"), ("stable", "")]:
+        wd = os.path.join(root, d, sub) if sub else os.path.join(root, d)
+        os.makedirs(wd, exist_ok=True)
+        if sub:
+            RUN.volatile[d] = wd
+        cfg = DeploymentConfig(name=d, type="local", config={}, external=True, lazy=False, workdir=wd)
+        deploy[d] = wf.create_step(cls=DeployStep, name=posixpath.join("__deploy__", d), deployment_config=cfg)
+    vol = deployments[0]
+
+    def sched(cls, name, dep):
+        bc = BindingConfig(targets=[Target(deployment=deploy[dep].deployment_config)])
+        return wf.create_step(cls=cls, name=posixpath.join(name, "__schedule__"), job_prefix=name,
+                              connector_ports={dep: deploy[dep].get_output_port()}, binding_config=bc)
+
+    indir = os.path.join(root, "stable", "inputs")
+    os.makedirs(indir, exist_ok=True)
+    x0 = os.path.join(indir, "x0")
+    with open(x0, "w") as f:
+        f.write("x0")
+    ports = {}
+    for name, value in (("test", x0), ("counter", 0), ("limit", shape["iters"])):
+        ss = sched(ScheduleStep, "/%s-injector" % name, "stable")
+        inj = wf.create_step(cls=RInputInjectorStep, name="/%s-injector" % name, job_port=ss.get_output_port())
+        inj.add_input_port(name, wf.create_port(name="in.%s" % name))
+        inj.add_output_port(name, wf.create_port(name="out.%s" % name))
+        inj.get_input_port(name).put(Token(value, recoverable=True))
+        inj.get_input_port(name).put(TerminationToken())
+        ports[name] = inj.get_output_port(name)
+
+    def exec_step(nid, inputs, out_key, out_type="same"):
+        name = "/" + nid
+        ss = sched(RScheduleStep, name, vol)
+        ex = wf.create_step(cls=RExecuteStep, name=name, job_port=ss.get_output_port())
+        ex.command = RCommand(ex, out_type=out_type)
+        RUN.exec_steps.add(name)
+        for k, (key, port) in enumerate(inputs.items()):
+            ss.add_input_port(key, port)
+            ts = wf.create_step(cls=RTransferStep, name=posixpath.join(name, "__transfer__", key), job_port=ss.get_output_port())
+            ts.add_input_port(key, port)
+            ts.add_output_port(key, wf.create_port(name="xfer.%s.%s" % (nid, key)))
+            ex.add_input_port(key, ts.get_output_port(key))
+            if k == 0:
+                RUN.first_port[name] = key
+        ex.add_output_port(out_key, wf.create_port(name="out.%s" % nid), ROutputProcessor(out_key, wf))
+        b.exec_steps[nid] = ex
+        return ex
+
+    # upstream stage(s): the loop-carried file is produced by a job (it lives on the volatile location)
+    for i in range(shape["pre"]):
+        nid = "pre%d" % (i + 1)
+        ports["test"] = exec_step(nid, {"test": ports["test"]}, "test").get_output_port("test")
+    # ---- loop input side (tests/utils/workflow.py::get_input_loop)
+    lname = "/body"
+    comb = LoopCombinator(workflow=wf, name=lname + "-loop-combinator")
+    fwd = {}
+    for pn, port in ports.items():
+        ft = wf.create_step(cls=ForwardTransformer, name=posixpath.join(lname, pn) + "-input-forward-transformer")
+        ft.add_input_port(pn, port)
+        fwd[pn] = wf.create_port()
+        ft.add_output_port(pn, fwd[pn])
+        comb.add_item(pn)
+    cstep = wf.create_step(cls=LoopCombinatorStep, name=lname + "-loop-combinator", combinator=comb)
+    for pn, port in fwd.items():
+        cstep.add_input_port(pn, port)
+        cstep.add_output_port(pn, wf.create_port())
+    when = wf.create_step(cls=RLoopConditionalStep, name=lname + "-loop-when")
+    loop_in = {}
+    for pn in ports:
+        when.add_input_port(pn, cstep.get_output_port(pn))
+        loop_in[pn] = wf.create_port()
+        when.add_output_port(pn, loop_in[pn])
+    # ---- loop body
+    inc = exec_step("inc", {"counter": loop_in["counter"]}, "counter", out_type="inc")
+    body = exec_step("body", {"test": loop_in["test"], "counter": loop_in["counter"], "limit": loop_in["limit"]}, "test1")
+    loop_ports = {"test": body.get_output_port("test1"), "counter": inc.get_output_port("counter"), "limit": loop_in["limit"]}
+    # ---- loop output side (get_output_loop)
+    internal = dict(loop_ports)
+    tcomb = LoopTerminationCombinator(workflow=wf, name=lname + "-loop-termination-combinator")
+    tstep = wf.create_step(cls=CombinatorStep, name=lname + "-loop-terminator", combinator=tcomb)
+    for pn, port in cstep.get_input_ports().items():
+        tstep.add_output_port(pn, port)
+        tcomb.add_output_item(pn)
+    pn = "test"
+    ft = wf.create_step(cls=ForwardTransformer, name=posixpath.join(lname, pn) + "-output-forward-transformer")
+    ft.add_input_port(pn, loop_ports[pn])
+    ft.add_output_port(pn, wf.create_port())
+    internal[pn] = ft.get_output_port(pn)
+    lout = wf.create_step(cls=RLoopOutputLastStep, name=posixpath.join(lname, pn) + "-loop-output")
+    lout.add_input_port(pn, ft.get_output_port())
+    when.add_skip_port(pn, ft.get_output_port())
+    lout.add_output_port(pn, wf.create_port(name="out.loop"))
+    tstep.add_input_port(pn, lout.get_output_port(pn))
+    tcomb.add_item(pn)
+    for pn in loop_ports:
+        bt = wf.create_step(cls=ForwardTransformer, name=posixpath.join(lname, pn) + "-back-propagation-transformer")
+        bt.add_input_port(pn, internal[pn])
+        bt.add_output_port(pn, cstep.get_input_port(pn))
+    b.out_ports = {"loop": lout.get_output_port("test")}
+    await wf.save(context.database)
+    return b
+
 
 def pipeline(n):
     ids = "abcdefgh"[:n]
@@ -675,7 +860,10 @@ async def run_plan(shape, plan, root, *, manager="rollback", max_retries=20, del
     if delays is not None:      # completions of database operations are genuine nondeterminism points
         delays.wrap(context.database, ["add_token", "add_provenance", "update_step", "add_execution", "add_step", "add_port"])
     try:
-        b = await build(context, shape, root, deployments=deployments, placement=placement)
+        if shape.get("kind") == "loop":
+            b = await build_loop(context, shape, root, deployments=deployments)
+        else:
+            b = await build(context, shape, root, deployments=deployments, placement=placement)
         executor = StreamFlowExecutor(b.workflow)
         task = asyncio.ensure_future(executor.run())
         if driver is not None:
@@ -808,6 +996,9 @@ async def script_driver(st, task, script, settle_s=0.02, step_timeout=20.0):
     import time
     for name in script:
         t0 = time.monotonic()
+        only_wait = name.startswith("park:")        # "park:<gate>": wait until the gate is parked, do not open it
+        if only_wait:
+            name = name[5:]
         while not st.gates.is_parked(name):
             if task.done():
                 st.ev("driver_stop", why="run ended before %s" % name)
@@ -824,6 +1015,8 @@ async def script_driver(st, task, script, settle_s=0.02, step_timeout=20.0):
         # let everything else that can run, run, before the gate opens (the order is then exactly the script's)
         for _ in range(3):
             await asyncio.sleep(settle_s)
+        if only_wait:
+            continue
         mark = st.seq
         st.ev("open", gate=name)
         st.gates.open(name)
@@ -838,6 +1031,10 @@ async def script_driver(st, task, script, settle_s=0.02, step_timeout=20.0):
             elif kind == "exec" and st.context is not None:
                 alloc = st.context.scheduler.job_allocations.get(jname)
                 if alloc is not None and alloc.status.name != "RUNNING":
+                    break
+            elif kind == "sched" and st.context is not None:
+                alloc = st.context.scheduler.job_allocations.get(jname)
+                if st.gates.is_parked("exec:" + jname) or (alloc is not None and alloc.status.name != "FIREABLE"):
                     break
             else:
                 break
